@@ -277,7 +277,7 @@ def runEngine (s0 : Scn) : List String := Id.run do
         m := { m with startValue := sv }
         cfg := { cfg with cur := none, queue := [], locked := false }
       | .swap k =>
-        m := ({ s with states := allv[k]! } : Scn).machine
+        m := { m with states := allv[k]!.toList }     -- (options set meanwhile, e.g. `allow`, stay)
         out := out ++ [s!"R {i} ok None cur={optS s.reprV cfg.cur} tid=-"]
         i := i + 1
         continue
